@@ -1407,3 +1407,148 @@ Proof.
   destruct (O4 _ Ie Wk Ln) as (o' & Io' & Ko' & Wo' & Co'). destruct U as [_ UC].
   assert (o = o') by (apply (uniq_cli (s_ops st)); auto; congruence). subst o'. exact Wo'.
 Qed.
+
+(* ---------- a request executed twice ---------- *)
+Lemma ack_twice : forall st blob trs st1, ack_extend st blob trs = (st1, cl_NoError) -> dur_ok st ->
+  fst (ack_extend st1 blob trs) = st1.
+Proof.
+  intros st blob trs st1 X [D1 _]. unfold ack_extend in *.
+  destruct trs as [|[[first ver0] hs0] trs0]; [inversion X; subst; reflexivity|].
+  set (trs := (first, ver0, hs0) :: trs0) in *.
+  assert (LEN : 0 < Z.of_nat (length trs)) by (unfold trs; cbn [length]; lia). clearbody trs.
+  destruct (20 <? Z.of_nat (length trs)) eqn:TB; [discriminate X|].
+  destruct (zget (s_blobs st) blob) as [[repl nt]|] eqn:B; [|discriminate X].
+  destruct (negb (first =? nt)) eqn:FN; [discriminate X|]. apply negb_false_iff in FN. apply Z.eqb_eq in FN. subst first.
+  match type of X with context [negb (forallb ?f ?l)] => destruct (negb (forallb f l)); [discriminate X|] end.
+  inversion X; subst st1. clear X.
+  cbn [s_blobs set_blobs set_dtr]. rewrite zget_zset_same.
+  destruct (negb (nt =? nt + Z.of_nat (length trs))) eqn:Q; [reflexivity|].
+  apply negb_false_iff in Q. apply Z.eqb_eq in Q. lia.
+Qed.
+
+Lemma posts_again : forall st e oracle st1 res tr st1b res2 tr2, dur_ok st ->
+  exec_rpc st e oracle = (st1, res, tr) -> exec_rpc st1 e oracle = (st1b, res2, tr2) ->
+  post_w st1 e res -> post_g st1 e tr -> post_x st1 e res ->
+  post_w st1b e res /\ post_g st1b e tr /\ post_x st1b e res.
+Proof.
+  intros st e oracle st1 res tr st1b res2 tr2 Ds X1 X2 PW PG PX.
+  assert (SAME : st1b = st1 -> post_w st1b e res /\ post_g st1b e tr /\ post_x st1b e res) by (intro E; subst; auto).
+  unfold exec_rpc in X2.
+  assert (GROW : forall reps' ,
+            (forall k r, rget (s_reps st1) k = Some r -> exists r', rget reps' k = Some r' /\ r_ver r' = r_ver r /\ incl (r_app r) (r_app r')) ->
+            wkind (p_rpc e) -> post_w (set_reps st1 reps') e res /\ post_g (set_reps st1 reps') e tr /\ post_x (set_reps st1 reps') e res).
+  { intros reps' G Wk. split; [|split].
+    - intros _ OKc Ln. destruct (PW Wk OKc Ln) as (Bd & r & Gr & Vr & Ir). split; [exact Bd|].
+      destruct (G _ _ Gr) as (r' & Gr' & Vr' & Ic). exists r'. split; [exact Gr'|]. split; [congruence | auto].
+    - intros Kd. destruct Wk as [Wk|Wk]; rewrite Wk in Kd; discriminate Kd.
+    - intros Kd. destruct Wk as [Wk|Wk]; rewrite Wk in Kd; discriminate Kd. }
+  assert (RSET : forall k r0 app1, rget (s_reps st1) k = Some r0 -> incl (r_app r0) app1 ->
+            forall k' r, rget (s_reps st1) k' = Some r ->
+              exists r', rget (rset (s_reps st1) k {| r_ver := r_ver r0; r_app := app1 |}) k' = Some r' /\ r_ver r' = r_ver r /\ incl (r_app r) (r_app r')).
+  { intros k r0 app1 G0 I k' r G. destruct (rkey_dec k' k) as [E|N].
+    - subst k'. rewrite rget_rset_same. rewrite G0 in G. inversion G; subst r. eexists. split; [reflexivity|]. split; auto.
+    - rewrite rget_rset_other by exact N. exists r. split; auto. split; auto. apply incl_refl. }
+  assert (ID : forall k r, rget (s_reps st1) k = Some r -> exists r', rget (s_reps st1) k = Some r' /\ r_ver r' = r_ver r /\ incl (r_app r) (r_app r')).
+  { intros k r G. exists r. split; auto. split; auto. apply incl_refl. }
+  destruct (k_kind (p_rpc e) =? K_Write) eqn:K1.
+  { apply Z.eqb_eq in K1. destruct (ts_write _ _ _ _ _ _ _) as [reps c] eqn:Wr. inversion X2; subst.
+    apply ts_write_spec in Wr as [[N Eq]|(Eq & r0 & G & V & Rq)]; subst; apply GROW; auto; [left; exact K1 | | left; exact K1].
+    apply RSET; auto. apply app_write_incl. }
+  destruct (k_kind (p_rpc e) =? K_Create) eqn:K2.
+  { apply Z.eqb_eq in K2. destruct (ts_create _ _ _ _ _ _ _) as [reps c] eqn:Cr. inversion X2; subst.
+    unfold ts_create in Cr. destruct (negb (_ =? _)); [inversion Cr; subst; apply GROW; auto; right; exact K2|].
+    destruct (rget (s_reps st1) _) as [r0|] eqn:G.
+    - apply ts_write_spec in Cr as [[N Eq]|(Eq & r0' & G' & V & Rq)]; subst; apply GROW; auto; [right; exact K2 | | right; exact K2].
+      apply RSET; auto. apply app_write_incl.
+    - inversion Cr; subst. apply GROW; [|right; exact K2]. intros k' r Gk.
+      destruct (rkey_dec k' (k_ts (p_rpc e), tkey (k_blob (p_rpc e)) (k_tract (p_rpc e)))) as [E|N]; [subst k'; congruence|].
+      rewrite rget_rset_other by exact N. exists r. split; auto. split; auto. apply incl_refl. }
+  assert (NW : forall s, post_w s e res) by (intros s [Y|Y]; rewrite Y in *; discriminate).
+  destruct (k_kind (p_rpc e) =? K_Read) eqn:K3.
+  { destruct (ts_read _ _ _ _ _ _) as [[c n] runs]. inversion X2; subst. auto. }
+  assert (NGX : k_kind (p_rpc e) <> K_GetTracts -> k_kind (p_rpc e) <> K_AckExtend -> forall s, post_w s e res /\ post_g s e tr /\ post_x s e res).
+  { intros N1 N2 s. split; [apply NW|]. split; intro Y; contradiction. }
+  destruct (k_kind (p_rpc e) =? K_SetVersion) eqn:K4.
+  { apply Z.eqb_eq in K4. destruct (ts_setversion _ _ _ _ _) as [reps c]. inversion X2; subst. apply NGX; rewrite K4; discriminate. }
+  destruct (k_kind (p_rpc e) =? K_PullTract) eqn:K5.
+  { apply Z.eqb_eq in K5. destruct (ts_pull _ _ _ _ _ _ _) as [reps c]. inversion X2; subst. apply NGX; rewrite K5; discriminate. }
+  destruct (k_kind (p_rpc e) =? K_StatBlob) eqn:K6.
+  { destruct (zget (s_blobs st1) (k_blob (p_rpc e))) as [[a b]|]; inversion X2; subst; auto. }
+  destruct (k_kind (p_rpc e) =? K_GetTracts) eqn:K7.
+  { destruct (exec_gettracts st1 (p_rpc e)) as [res0 trs]. inversion X2; subst. auto. }
+  destruct (k_kind (p_rpc e) =? K_ExtendBlob) eqn:K8.
+  { destruct (exec_extend st1 (p_rpc e) oracle) as [res0 trs]. inversion X2; subst. auto. }
+  destruct (k_kind (p_rpc e) =? K_AckExtend) eqn:K9.
+  { apply Z.eqb_eq in K9. destruct (ack_extend st1 (k_blob (p_rpc e)) (decode_tracts false (k_aux (p_rpc e)))) as [st' c] eqn:AE2.
+    inversion X2; subst. clear X2.
+    (* the first execution *)
+    unfold exec_rpc in X1. rewrite K9 in X1. cbn in X1.
+    destruct (ack_extend st (k_blob (p_rpc e)) (decode_tracts false (k_aux (p_rpc e)))) as [st'' c1] eqn:AE1. inversion X1; subst. clear X1.
+    destruct (Z.eq_dec c1 cl_NoError) as [OKc|NOK].
+    - subst c1. pose proof (ack_twice _ _ _ _ AE1 Ds) as TW. rewrite AE2 in TW. cbn in TW. apply SAME. exact TW.
+    - split; [apply NW|]. split; [intro Y; rewrite K9 in Y; discriminate Y|]. intros _ Y. cbn in Y. contradiction. }
+  destruct (k_kind (p_rpc e) =? K_ReportBadTS); inversion X2; subst; auto.
+Qed.
+
+Lemma side_ok_again : forall st e oracle st1 res tr, exec_rpc st e oracle = (st1, res, tr) -> side_ok st e -> side_ok st1 e.
+Proof.
+  intros st e oracle st1 res tr X (SC & SP & SV). unfold exec_rpc in X.
+  set (x := k_ts (p_rpc e)) in *. set (tk := tkey (k_blob (p_rpc e)) (k_tract (p_rpc e))) in *.
+  destruct (k_kind (p_rpc e) =? K_Write) eqn:K1.
+  { apply Z.eqb_eq in K1. destruct (ts_write _ _ _ _ _ _ _) as [reps c]. inversion X; subst.
+    split; [|split]; intro Y; rewrite K1 in Y; discriminate Y. }
+  destruct (k_kind (p_rpc e) =? K_Create) eqn:K2.
+  { apply Z.eqb_eq in K2. destruct (ts_create _ _ _ _ _ _ _) as [reps c]. inversion X; subst.
+    split; [exact SC|]. split; intro Y; rewrite K2 in Y; discriminate Y. }
+  destruct (k_kind (p_rpc e) =? K_Read) eqn:K3.
+  { destruct (ts_read _ _ _ _ _ _) as [[c n] runs]. inversion X; subst. exact (conj SC (conj SP SV)). }
+  destruct (k_kind (p_rpc e) =? K_SetVersion) eqn:K4.
+  { apply Z.eqb_eq in K4. destruct (ts_setversion _ _ _ _ _) as [reps c] eqn:Sv. inversion X; subst.
+    split; [intro Y; rewrite K4 in Y; discriminate Y|]. split; [intro Y; rewrite K4 in Y; discriminate Y|].
+    intros _ dv H Et. cbn [s_dtr set_reps] in Et. destruct (SV K4 dv H Et) as [PS HV]. split; [exact PS|].
+    intros r1 Ih G1. cbn [s_reps set_reps] in G1. unfold rtk in *. fold x tk in G1, HV.
+    apply ts_setversion_spec in Sv as [Eq|(r0 & G & V & Eq)]; subst reps; [eapply HV; eauto|].
+    rewrite rget_rset_same in G1. inversion G1; subst r1. cbn. specialize (HV _ Ih G). lia. }
+  destruct (k_kind (p_rpc e) =? K_PullTract) eqn:K5.
+  { apply Z.eqb_eq in K5. destruct (ts_pull _ _ _ _ _ _ _) as [reps c] eqn:Pl. inversion X; subst.
+    split; [intro Y; rewrite K5 in Y; discriminate Y|]. split; [|intro Y; rewrite K5 in Y; discriminate Y].
+    intros _. specialize (SP K5). unfold stale_pull in *. cbn [s_dtr s_reps set_reps]. fold x tk. fold x tk in SP.
+    destruct (tget (s_dtr st) tk) as [[dv H]|]; [|reflexivity].
+    destruct (k_ver (p_rpc e) <=? dv) eqn:LV; [|reflexivity]. cbn [andb] in *.
+    unfold ts_pull in Pl. destruct (negb (x =? aux_nth (p_rpc e) 0)); [inversion Pl; subst; exact SP|].
+    apply pull_loop_spec in Pl as [OTH [SAME|[PRE RES]]]; [rewrite SAME; exact SP|].
+    exfalso. destruct PRE as [PRE|(r0 & G0 & L0)]; rewrite ?PRE in SP; [discriminate SP|]. rewrite G0 in SP. apply Z.leb_gt in SP. lia. }
+  destruct (k_kind (p_rpc e) =? K_StatBlob) eqn:K6.
+  { destruct (zget (s_blobs st) (k_blob (p_rpc e))) as [[a b]|]; inversion X; subst; exact (conj SC (conj SP SV)). }
+  destruct (k_kind (p_rpc e) =? K_GetTracts) eqn:K7.
+  { destruct (exec_gettracts st (p_rpc e)) as [res0 trs]. inversion X; subst. exact (conj SC (conj SP SV)). }
+  destruct (k_kind (p_rpc e) =? K_ExtendBlob) eqn:K8.
+  { destruct (exec_extend st (p_rpc e) oracle) as [res0 trs]. inversion X; subst. exact (conj SC (conj SP SV)). }
+  assert (NK : side_ok st1 e).
+  { split; [|split]; intro Y; rewrite Y in *; discriminate. }
+  exact NK.
+Qed.
+
+Lemma cinv_exec_upd2 : forall st e oracle st1 res tr st1b res2 tr2 lose auto,
+  Inv2 st -> ord_ok st -> tr_ok st -> cinv st -> In e (s_pool st) -> p_st e = 0 -> side_ok st e ->
+  exec_rpc st e oracle = (st1, res, tr) -> exec_rpc st1 e oracle = (st1b, res2, tr2) ->
+  cinv (set_pool st1b (pool_update (s_pool st1b) (set_pent e 2 res tr lose auto))) /\
+  tr_ok (set_pool st1b (pool_update (s_pool st1b) (set_pent e 2 res tr lose auto))).
+Proof.
+  intros st e oracle st1 res tr st1b res2 tr2 lose auto I2 OO T C Ie Pz SD X1 X2. pose proof OO as (U & _ & _ & O4 & _).
+  destruct (exec_summary _ _ _ _ _ _ I2 U C Ie Pz SD X1) as (C1 & PW & PG & PX & FE).
+  pose proof I2 as [I W]. destruct (inv_exec _ _ _ _ _ _ I X1) as (E1 & P1 & TB1).
+  assert (J1 : Inv2 st1) by (split; [exact (evolves_inv _ _ E1 I) | exact (win_exec _ _ _ _ _ _ I2 Ie X1)]).
+  assert (U1 : ops_uniq st1) by (destruct FE as (_ & _ & _ & FO); unfold ops_uniq; rewrite FO; exact U).
+  assert (Ie1 : In e (s_pool st1)) by (rewrite P1; exact Ie).
+  pose proof (side_ok_again _ _ _ _ _ _ X1 SD) as SD1.
+  destruct (exec_summary _ _ _ _ _ _ J1 U1 C1 Ie1 Pz SD1 X2) as (C2 & _ & _ & _ & FE2).
+  destruct (posts_again _ _ _ _ _ _ _ _ _ (proj1 I) X1 X2 PW PG PX) as (PW2 & PG2 & PX2).
+  assert (FEE : fields_eq st st1b).
+  { destruct FE as (A1 & A2 & A3 & A4). destruct FE2 as (B1 & B2 & B3 & B4). repeat split; congruence. }
+  split; [|eapply tr_ok_upd; eauto].
+  apply cinv_upd; auto; [|destruct FEE as (_ & _ & FP & _); rewrite FP; exact Ie].
+  intros o Wk Ln [Io Ko] Cc. destruct FEE as (_ & _ & _ & FO). rewrite FO in Io.
+  destruct (O4 _ Ie Wk Ln) as (o' & Io' & Ko' & Wo' & Co'). destruct U as [_ UC].
+  assert (o = o') by (apply (uniq_cli (s_ops st)); auto; congruence). subst o'. exact Wo'.
+Qed.
